@@ -25,7 +25,7 @@ m={
  "setup_cmd":"./setup.sh",
  "hooks":{
    "guard":"verif",
-   "enable":"no hook is committed in /repo: every check re-instruments /repo's current working tree on the fly (verif/instrument: statement-level yields, sync->simsync shim, net.DialTimeout->simhook, panic capture; plus overlay-only files simhook/, export_verif.go guarded by //go:build verif) into a scratch directory and builds the worker with `go1.26.8 test -c -tags verif -overlay <scratch>/overlay.json -vet=off -modfile <scratch>/go.mod ./sim`",
+   "enable":"no hook is committed in /repo: every check re-instruments /repo's current working tree on the fly (verif/instrument: statement-level yields, sync->simsync shim, net.DialTimeout->simhook, panic capture, selects polled in a tape-chosen order; plus overlay-only files simhook/, export_verif.go guarded by //go:build verif) into a scratch directory and builds the worker with `go1.26.8 test -c -tags verif -overlay <scratch>/overlay.json -vet=off -modfile <scratch>/go.mod ./sim`",
    "baseline_off_cmd":"cd /repo && GOFLAGS=-mod=mod GOPROXY=off GOSUMDB=off go test -json -vet=off -count=1 -timeout 25m ./...",
    "source_commits":[],
    "add_only":True
